@@ -16,7 +16,7 @@ func init() { register("C04", c04) }
 func c04(c *Ctx) {
 	r := c.R
 	r.Explanation = "Partial: the resume protocol of GetMessages has a fixed shape whose parts are each a necessary condition of 'the concatenation of what the client received is exactly its stream, nothing missing, nothing twice'. Decided: (P1) the remainder of the batch named by lastseen is sent first, sliced at exactly lastseen.Reply under the bound test that keeps the slice in range; (P2) the follow loop delivers a batch only on the false edge of 'batch older than the position' and after advancing the position to it; (P3) a batch whose id equals the position's id (the node applied it only after the request started) is never delivered whole: it is re-sliced at the position's Reply before the position is advanced; (P4) every message written to the connection passed the test 'ping or addressed to this session'; (P5) the position is built from the two parts of the lastseen parameter in order (id from the first, reply from the second); (P6) a new GetMessages request for a session cancels the older one before it is registered, and is registered before its reader goroutine starts. Not decided: what GetNext returns under concurrent Add/Delete (C08), and the window in which a node that is behind catches up past the named batch between two look-ups (a schedule)."
-	r.Rules = []string{"C04.P1 remainder of the named batch", "C04.P2 follow loop never goes backwards", "C04.P3 partially seen batch is re-sliced", "C04.P4 per-session filter", "C04.P5 position from lastseen", "C04.P6 one reader per session"}
+	r.Rules = []string{"C04.P1 remainder of the named batch", "C04.P2 follow loop never goes backwards", "C04.P3 partially seen batch is re-sliced", "C04.P4 per-session filter", "C04.P5 position from lastseen", "C04.P6 one reader per session", "C04.P7 current stream on every call"}
 	r.Assumptions = []string{"OutputStream.Get/GetNext honour their contract (C08's clauses); batches are added in increasing id order"}
 
 	gm := c.MustFunc("api.(*HTTP).getMessages")
@@ -332,6 +332,56 @@ func c04(c *Ctx) {
 			r.Check(resIndex(idv) == 0 && resIndex(rv) == 1, "C04.P5", hgm.Name(), "position = {Id: first part, Reply: second part} of lastseen", c.P.Pos(cl.Pos()), "results 0 and 1 of parseLastSeen",
 				"the resume position is not built from the two parts of the lastseen parameter in order: the client resumes at a different message than the one it saw last")
 		}
+		// the position handed to the reader is the authenticated session's id (no lastseen) or exactly that literal:
+		// nothing else rewrites it (e.g. clamping it to what this node has would re-deliver everything in between)
+		{
+			hg := c.Graph(hgm)
+			for _, v := range hg.Nodes() {
+				gs, ok := v.Node.(*ast.GoStmt)
+				if !ok {
+					continue
+				}
+				fn := astx.Callee(hi, gs.Call)
+				if fn == nil || c.P.FuncOf(fn) != gm || len(gs.Call.Args) < 2 {
+					continue
+				}
+				pid, ok := ast.Unparen(gs.Call.Args[1]).(*ast.Ident)
+				if !ok {
+					r.Fail("C04.P5", hgm.Name(), "position passed to the reader", c.P.Pos(gs.Pos()), "the reader is not started with the position variable")
+					continue
+				}
+				bad := ""
+				for _, d := range defsOf(hi, hgm.Node(), astx.Obj(hi, pid)) {
+					if d == nil {
+						bad = "zero value"
+						continue
+					}
+					switch x := ast.Unparen(d).(type) {
+					case *ast.Ident:
+						// the authenticated session id: the result of the gate api.session(…)
+						okGate := false
+						for _, d2 := range defsOf(hi, hgm.Node(), astx.Obj(hi, x)) {
+							if call, ok := ast.Unparen(d2).(*ast.CallExpr); d2 != nil && ok {
+								if fn := astx.Callee(hi, call); fn != nil && isFunc(fn, "api", "(*HTTP).session") {
+									okGate = true
+								}
+							}
+						}
+						if !okGate || !astx.IsNamed(hi.TypeOf(x), pathRobust, "Id") {
+							bad = astx.Str(d)
+						}
+					case *ast.CompositeLit:
+						if !astx.IsNamed(hi.TypeOf(x), pathRobust, "Id") {
+							bad = astx.Str(d)
+						}
+					default:
+						bad = astx.Str(d)
+					}
+				}
+				r.Check(bad == "", "C04.P5", hgm.Name(), "the position is the session id or the parsed lastseen, nothing else", c.P.Pos(gs.Pos()), "definitions: <session id> | robust.Id{Id, Reply}",
+					"the resume position is rewritten after parsing ("+bad+"): the reader starts somewhere else than where the client stopped, so messages are delivered twice or skipped")
+			}
+		}
 		r.Check(n >= 1, "C04.P5", hgm.Name(), "position literal found", c.P.Pos(hgm.Node().Pos()), itoa(n), "no robust.Id{Id:…, Reply:…} built in handleGetMessages")
 		// parseLastSeen: result k is parsed from parts[k]
 		pi := pls.Info()
@@ -435,6 +485,40 @@ func c04(c *Ctx) {
 		}
 		r.Check(regV >= 0 && goV >= 0 && hg.DominatedBy(goV, func(x *cfgx.Vertex) bool { return x.ID == regV }), "C04.P6", hgm.Name(), "the request is registered before its reader starts", c.P.Pos(hgm.Node().Pos()), "setGetMessagesRequests dominates `go getMessages`",
 			"the reader goroutine is started on a path on which the request was not registered (so that a later request cannot cancel it)")
+	}
+	// ---------- P7: the output stream is re-read through the accessor for every call in the reader: FSM.Restore swaps the
+	// stream (ReplaceState) after closing the old one, and a reader that keeps using a cached pointer calls into a closed
+	// LevelDB (process exit) or never sees the new stream
+	{
+		acc := c.P.Func("api.(*HTTP).output")
+		n := 0
+		if acc != nil {
+			for _, v := range g.Nodes() {
+				if v.Node == nil {
+					continue
+				}
+				for _, call := range astx.Calls(v.Node, false) {
+					fn := astx.Callee(info, call)
+					if fn == nil || fn.Pkg() == nil || load.ShortPkg(fn.Pkg().Path()) != "outputstream" {
+						continue
+					}
+					se, ok := ast.Unparen(call.Fun).(*ast.SelectorExpr)
+					if !ok {
+						continue
+					}
+					n++
+					direct := false
+					if rc, ok := ast.Unparen(se.X).(*ast.CallExpr); ok {
+						if rf := astx.Callee(info, rc); rf != nil && c.P.FuncOf(rf) == acc {
+							direct = true
+						}
+					}
+					r.Check(direct, "C04.P7", gm.Name(), "call of "+se.Sel.Name+" on the current output stream", c.P.Pos(call.Pos()), "receiver is api.output() itself",
+						"the reader calls the output stream through a cached pointer instead of api.output(): after a snapshot restore replaced (and closed) the stream, the next call runs on the closed LevelDB and terminates the process, or waits on a stream that never gets new messages")
+				}
+			}
+		}
+		r.Check(n >= 2, "C04.P7", gm.Name(), "stream calls found", c.P.Pos(gm.Node().Pos()), itoa(n), "no calls on the output stream in getMessages")
 	}
 	r.Floor("C04.P1", 5)
 	r.Floor("C04.P2", 3)
